@@ -291,7 +291,7 @@ def run_team(ctx, quick):
                 continue
             evals += 1
             hist[c.get("family", "corpus")] = hist.get(c.get("family", "corpus"), 0) + 1
-            cd = dict(config=[sheps, workers], perturb=perturb, case=c)
+            cd = dict(config=[sheps, workers], perturb=perturb, tree=c, script=case_lines(c))
             if v.startswith("OK"):
                 w = v.split()
                 events += int(w[1]); ops += int(w[4])
@@ -328,7 +328,7 @@ def run_team(ctx, quick):
     else:
         what = "team finish: machine accepts, property oracle rejects (%d trees)" % len(ofail)
     if ofail:
-        ofail.sort(key=lambda x: len(x[1]["case"]["nodes"]))
+        ofail.sort(key=lambda x: len(x[1]["tree"]["nodes"]))
         (cls, why), cd = ofail[0]
         ctx.violation("team:" + cls, what + "; failing input: " + why,
                       {"failing_input": cd, "reason": why, "first_rejection": rejected[0] if rejected else None, "coq_log": pr["log"][-1500:]})
